@@ -78,6 +78,7 @@ class Typer:
         self.prog, self.mod, self.cls, self.fn = prog, mod, cls, fn
         self.ftypes = field_types(mod, cls) if cls else {}
         self.folder = Folder(prog, mod)
+        self._busy: Set[str] = set()
 
     def ann_kind(self, ann: Optional[str]) -> str:
         if not ann:
@@ -202,6 +203,17 @@ class Typer:
             for n in walk_no_nested(self.fn):
                 if isinstance(n, ast.AnnAssign) and isinstance(n.target, ast.Name) and n.target.id == e.id:
                     return U(n.annotation)
+            # a local assigned once without annotation has the type of what it is assigned (a list comprehension: list of its element)
+            defs_ = [n.value for n in walk_no_nested(self.fn) if isinstance(n, ast.Assign) and len(n.targets) == 1 and isinstance(n.targets[0], ast.Name) and n.targets[0].id == e.id]
+            if len(defs_) == 1 and e.id not in self._busy:
+                self._busy.add(e.id)
+                try:
+                    if isinstance(defs_[0], ast.ListComp):
+                        inner_ = self.expr_ann(defs_[0].elt)
+                        return f'list[{inner_}]' if inner_ else None
+                    return self.expr_ann(defs_[0])
+                finally:
+                    self._busy.discard(e.id)
             return None
         return None
 
@@ -1481,9 +1493,20 @@ def check_disp_rows(ctx: Any, prog: Program, vm: Module) -> None:
                 if m and '"' not in txt.split('\n')[0]:
                     cur_block = m.group(1).replace('\x00', '*')
             if isinstance(n, ast.Assign) and isinstance(n.value, ast.ListComp) and len(n.targets) == 1 and isinstance(n.targets[0], ast.Name) \
-                    and isinstance(n.value.generators[0].iter, ast.Subscript) and isinstance(n.value.generators[0].iter.slice, ast.Slice) and dotted(n.value.generators[0].iter.value) == 'self._disp_verts':
+                    and any(isinstance(x, ast.Call) and isinstance(x.func, ast.Attribute) and x.func.attr == 'join' and any(isinstance(a, ast.Name) and a.id == n.targets[0].id for a in x.args) for x in ast.walk(ed)):
                 comp = n.value
                 it = comp.generators[0].iter
+                if isinstance(it, ast.Name):
+                    # `for y, row_verts in enumerate(vert_rows)` with `vert_rows = [self._disp_verts[size*y:size*(y+1)] for y in range(size)]`
+                    for lp_ in ast.walk(ed):
+                        if isinstance(lp_, ast.For) and any(isinstance(t_, ast.Name) and t_.id == it.id for t_ in ast.walk(lp_.target)):
+                            src_ = lp_.iter.args[0] if isinstance(lp_.iter, ast.Call) and dotted(lp_.iter.func) == 'enumerate' and lp_.iter.args else lp_.iter
+                            if isinstance(src_, ast.Name):
+                                d_ = [a_.value for a_ in ast.walk(ed) if isinstance(a_, ast.Assign) and len(a_.targets) == 1 and isinstance(a_.targets[0], ast.Name) and a_.targets[0].id == src_.id]
+                                if len(d_) == 1 and isinstance(d_[0], ast.ListComp):
+                                    it = d_[0].elt
+                if not (isinstance(it, ast.Subscript) and isinstance(it.slice, ast.Slice) and dotted(it.value) == 'self._disp_verts'):
+                    raise AnalysisError(f'_export_displacement:{n.lineno}: row comprehension iterable `{U(comp.generators[0].iter)[:50]}` not recognised')
                 cnt = None
                 if isinstance(it, ast.Subscript) and isinstance(it.slice, ast.Slice):
                     lo, hi = lin_y(it.slice.lower, ed), lin_y(it.slice.upper, ed)
